@@ -9,7 +9,7 @@ position of the literal in that list is *located by executing* the parser on
 two harmless payloads ('a..', 'b..') and diffing, so nothing about the tree
 layout is assumed. The same is done one level down on the token list.
 
-Workloads: the bounded set of the property statement, exhaustively (40 fixed
+Workloads: the bounded set of the property statement, exhaustively (64 fixed
 contexts x 7 literal kinds x all payloads of length <= 2 over the
 syntax-significant characters, plus a few payloads made of the literal
 delimiters / escapes), and random nestings of the same frames with random
@@ -31,7 +31,7 @@ ID = "C03"
 LEVEL = "exploration"
 DESIGN_REF = "DESIGN.md §1 C03"
 RULE = (
-    "exhaustive part: 40 fixed contexts x 7 literal kinds x every payload of length <= 2 over the 28 "
+    "exhaustive part: 64 fixed contexts (16 structure positions, 16 modifier slots, 4 nested, 4 truncated, 12 with a break/recurse later in the branch of a modifier, 12 with 120-240 tokens of flat body around the literal) x 7 literal kinds x every payload of length <= 2 over the 28 "
     "syntax-significant characters the literal kind can hold (+ delimiter/escape payloads); each case is one "
     "parse of C[payload] compared event-by-event and token-by-token with the parse of C['a'*n]. Random part: "
     "random nestings (depth <= 4) of the same frames, random payloads of length <= 6. A case is non-trivial when "
@@ -46,7 +46,7 @@ ASSUMPTIONS = [
 MIN_COUNTERS = {
     "parse_compared": {"quick": 30000, "thorough": 60000},
     "tokens_compared": {"quick": 30000, "thorough": 60000},
-    "contexts_located": {"quick": 40, "thorough": 40},
+    "contexts_located": {"quick": 64, "thorough": 64},
     "secondary_transpile_compared": {"quick": 3000, "thorough": 3000},
 }
 UNIT_TIMEOUT = 600
@@ -467,7 +467,7 @@ def classify(w):
 
 def finalize(agg, tier):
     out = {"exhaustive": True,
-           "exhaustive_scope": "40 fixed contexts x 7 literal kinds x payload length <= 2 over 28 syntax characters; the random part is sampled"}
+           "exhaustive_scope": "64 fixed contexts x 7 literal kinds x payload length <= 2 over 28 syntax characters; the random part is sampled"}
     sec = {k: v for k, v in agg["counters"].items() if k.startswith("secondary_")}
     if sec:
         out["secondary_observations"] = sec
